@@ -339,6 +339,18 @@ example :
     remaining 0 (86400 * sec) (some (2 * sec)) (2 * sec) = 0 ∧
     remaining 0 (5 * sec) (some (2 * sec)) (2 * sec - 1) = 1 := by decide
 
+/-- **refresh_keeps_cut.** Whatever a background refresh writes back —
+positive answer, NXDOMAIN, NODATA or SERVFAIL — the replacement entry carries
+exactly the cut of the refresh's own resolution (never none when that is bounded),
+so `learned_data_bounded` applies to it like to any other learned entry. -/
+theorem refresh_keeps_cut (same : Bool) (cut : Deadline) (key : Nat) (c : Deadline) (k : Nat)
+    (h : replaceIfCurrent same cut key = some (c, k)) : c = cut ∧ k = key ∧ same = true := by
+  unfold replaceIfCurrent at h
+  cases same <;> simp at h
+  exact ⟨h.1.symm, h.2.symm, rfl⟩
+
+example : replaceIfCurrent true (some 400) 7 = some (some 400, 7) ∧ replaceIfCurrent false (some 400) 7 = none := by decide
+
 /-- `remaining` at the function level: the cut always wins over the TTL. -/
 theorem remaining_le_cut (stored ttl c now : Int) :
     remaining stored ttl (some c) now ≤ c - now ∧ remaining stored ttl (some c) now ≤ ttl - (now - stored) := by
